@@ -16,6 +16,7 @@ mod c10;
 mod c16;
 mod c19;
 mod c21;
+mod c22;
 mod fdgen;
 mod search;
 mod prog;
@@ -60,6 +61,7 @@ fn main() {
                 "C16" => c16::run(seed, thorough, 16, &mut out),
                 "C19" => c19::run(seed, thorough, &mut out),
                 "C21" => c21::run(seed, thorough, &mut out),
+                "C22" => c22::run(seed, thorough, &mut out),
                 "C17" => c16::run(seed, thorough, 17, &mut out),
                 _ => {
                     eprintln!("unknown property {}", prop);
@@ -94,6 +96,7 @@ fn main() {
                     "C16" => c16::replay(line, 16, &mut out),
                     "C19" => c19::replay(line, &mut out),
                     "C21" => c21::replay(line, &mut out),
+                    "C22" => c22::replay(line, &mut out),
                     "C17" => c16::replay(line, 17, &mut out),
                     _ => {
                         eprintln!("unknown property {}", prop);
